@@ -43,6 +43,9 @@ DUnionS(n, closed, ext, tags) == [k |-> "union", n |-> n, closed |-> closed, ext
 DAliasS(n, t) == [k |-> "alias", n |-> n, t |-> t]
 DRoute(n, ver, arg, res, err, dep) ==
     [k |-> "route", n |-> n, ver |-> ver, arg |-> arg, res |-> res, err |-> err, dep |-> dep]
+\* patch struct/union n: additional fields (struct) or tags (union) for a type defined elsewhere in the namespace
+PatchS(n, fields) == [k |-> "patch", pk |-> "struct", n |-> n, closed |-> FALSE, fields |-> fields]
+PatchU(n, closed, tags) == [k |-> "patch", pk |-> "union", n |-> n, closed |-> closed, fields |-> tags]
 NoDep == [k |-> "nodep"]
 DepPlain == [k |-> "deprecated"]
 DepBy(n, ver) == [k |-> "by", n |-> n, ver |-> ver]
@@ -63,7 +66,20 @@ Canon(n) == CASE n = "s_a" -> "sa" [] n = "Sa" -> "sa" [] n = "SA" -> "sa" [] n 
 Namespaces(m) == {m[i].ns : i \in DOMAIN m}
 FilesOf(m, ns) == {i \in DOMAIN m : m[i].ns = ns}
 \* definitions of a namespace in file order (order matters only for Denote's doc/field order)
-DefsOf(m, ns) == Flat([i \in DOMAIN m |-> IF m[i].ns = ns THEN m[i].defs ELSE <<>>])
+RawDefsOf(m, ns) == Flat([i \in DOMAIN m |-> IF m[i].ns = ns THEN m[i].defs ELSE <<>>])
+\* lang_ref "Patch": the definition of a struct or union may be split over files; a patch adds members to a type of
+\* the same kind (and, for unions, the same openness) defined elsewhere in the namespace.  The merged definition is
+\* what every other rule sees.  Members of different patches follow the type's own members; their mutual order is
+\* file order (part of the documented "fields keep declaration order"), so here they are put in an order that depends
+\* only on the SET of patches and the observation side compares modulo that order (patch_groups of Denote).
+PatchesFor(m, ns, d) ==
+    SelectSeq(RawDefsOf(m, ns), LAMBDA p : p.k = "patch" /\ p.n = d.n /\ p.pk = d.k /\ (d.k = "union" => p.closed = d.closed))
+CanonPatches(m, ns, d) == SetToSeq(Range(PatchesFor(m, ns, d)))
+MergeDef(m, ns, d) ==
+    IF d.k = "struct" THEN [d EXCEPT !.fields = @ \o Flat([i \in DOMAIN CanonPatches(m, ns, d) |-> CanonPatches(m, ns, d)[i].fields])]
+    ELSE IF d.k = "union" THEN [d EXCEPT !.tags = @ \o Flat([i \in DOMAIN CanonPatches(m, ns, d) |-> CanonPatches(m, ns, d)[i].fields])]
+    ELSE d
+DefsOf(m, ns) == [i \in DOMAIN RawDefsOf(m, ns) |-> MergeDef(m, ns, RawDefsOf(m, ns)[i])]
 Named(m, ns) == SelectSeq(DefsOf(m, ns), LAMBDA d : d.k \in {"struct", "union", "alias", "route"})
 TypeDefs(m, ns) == SelectSeq(DefsOf(m, ns), LAMBDA d : d.k \in {"struct", "union"})
 Imports(m, ns) == {d.target : d \in {x \in Range(DefsOf(m, ns)) : x.k = "import"}}
@@ -192,8 +208,21 @@ IsOpen(m, ns, n) == LET d == LookupT(m, ns, n) IN
     ~d.closed \/ \E a \in Range(Ancestors(m, ns, n, NTypes(m))) : ~LookupT(m, a[1], a[2]).closed
 
 \* ------------------------------------------------------------- rules per definition
+MemberNames(fs) == [i \in DOMAIN fs |-> fs[i].n]
+PatchViolations(m, ns, p) ==
+    LET raw == RawDefsOf(m, ns)
+        targets == {d \in Range(raw) : d.k \in {"struct", "union"} /\ d.n = p.n}
+        patches == SelectSeq(raw, LAMBDA q : q.k = "patch" /\ q.n = p.n)
+        allnew  == Flat([i \in DOMAIN patches |-> MemberNames(patches[i].fields)])
+    IN  (IF targets = {} THEN {"P1"} ELSE {}) \cup                \* "Only data types that have been fully-defined elsewhere can be patched"
+        (IF \E d \in targets : d.k # p.pk \/ (d.k = "union" /\ d.closed # p.closed) THEN {"P2"} ELSE {}) \cup
+        \* "patching can only be used to add additional fields, not mutate existing fields"
+        (IF HasDup(allnew) \/ \E d \in targets : Range(MemberNames(p.fields)) \cap
+                                                   Range(MemberNames(IF d.k = "struct" THEN d.fields ELSE d.tags)) # {}
+         THEN {"P3"} ELSE {})
 DefViolations(m, ns, d) ==
-    CASE d.k = "import" ->
+    CASE d.k = "patch" -> PatchViolations(m, ns, d)
+      [] d.k = "import" ->
            (IF d.target = ns THEN {"I1"} ELSE {}) \cup
            (IF d.target # ns /\ d.target \notin Namespaces(m) THEN {"I2"} ELSE {}) \cup
            (IF d.target # ns /\ d.target \in Namespaces(m) /\ ns \in Imports(m, d.target) THEN {"I3"} ELSE {})
@@ -318,7 +347,8 @@ DenoteDef(m, ns, d) ==
                                    IN  FieldNames(LookupT(m, a[1], a[2]))]) \o FieldNames(d),
             subs |-> [i \in DOMAIN d.subs |-> [tag |-> d.subs[i].n, sub |-> Resolved(m, ns, d.subs[i].t, 6).n]],
             hassubs |-> d.hassubs, catchall |-> d.hassubs /\ d.catchall,
-            examples |-> {d.examples[i].label : i \in DOMAIN d.examples}]
+            examples |-> {d.examples[i].label : i \in DOMAIN d.examples},
+            patch_groups |-> [i \in DOMAIN CanonPatches(m, ns, d) |-> MemberNames(CanonPatches(m, ns, d)[i].fields)]]
       [] d.k = "union" ->
            [k |-> "union", n |-> d.n, parent |-> ParentOf(m, ns, d.n), closed |-> d.closed,
             tags |-> FieldNames(d) \o
@@ -332,7 +362,8 @@ DenoteDef(m, ns, d) ==
             examples |-> {t.n : t \in {x \in UNION {Range(LookupT(m, a[1], a[2]).tags) :
                                                       a \in Range(Ancestors(m, ns, d.n, NTypes(m))) \cup {<<ns, d.n>>}} :
                                         x.t.k = "voidtag"}}
-                         \cup (IF IsOpen(m, ns, d.n) THEN {"other"} ELSE {})]
+                         \cup (IF IsOpen(m, ns, d.n) THEN {"other"} ELSE {}),
+            patch_groups |-> [i \in DOMAIN CanonPatches(m, ns, d) |-> MemberNames(CanonPatches(m, ns, d)[i].fields)]]
       [] d.k = "alias" -> [k |-> "alias", n |-> d.n, t |-> d.t]
       [] d.k = "route" -> [k |-> "route", n |-> d.n, ver |-> d.ver, arg |-> d.arg, res |-> d.res, err |-> d.err,
                            deprecated |-> d.dep.k # "nodep",
